@@ -9,12 +9,17 @@ HARNESSES = [dict(name="ppp", pkg="./pkg/ppp/", test="TestVerifC05", timeout=900
 
 
 def route(case):
-    return "ppp_race" if case.startswith("conc ") else "ppp"
+    return "ppp_race" if case.startswith(("conc ", "late ")) else "ppp"
 
 
 
-# repaired = both fix patches applied; defective = fsm.go as it stands; the other two = exactly one patch applied
-VARIANTS = ["repaired", "defective", "cells_unfixed", "ncp_unfixed"]
+# repaired = every fix patch applied.  The two others are the open findings of /repo HEAD (each applies to its own
+# case kinds only, so any combination of the two patches matches one of the variants case by case):
+#   restore_unfixed: Restore() leaves restartCount at 0        (fixes/C05_restore_restart_counter.patch)
+#   late_unfixed:    a late timer callback still runs Timeout() (fixes/C05_late_timer_fire.patch)
+# The driver still knows the legacy variants defective / cells_unfixed / ncp_unfixed (fsm.go before d6fc4b1 /
+# 488e192); they are no longer tried, so a regression to them is a VIOLATION.
+VARIANTS = ["repaired", "restore_unfixed", "late_unfixed"]
 RULE = ("One case = one whole event history applied to a fresh FSM (kinds fsm / ncp: mock option handler whose answer "
         "class good/nak/rej/both/malformed is chosen per Configure-Request, protocol LCP / IPCP; kinds lcp/ipcp/ipv6cp: "
         "the real handlers with payloads of known class), restart timer fired only by the explicit T event. Exhaustive part: ~30 canonical "
@@ -33,13 +38,16 @@ RULE = ("One case = one whole event history applied to a fresh FSM (kinds fsm / 
         "callback by a gate; event B is injected from a second goroutine; the recorded stream and final state must be "
         "those of the sequential history A;B (events are atomic), tlu/tld must alternate and an acknowledged "
         "Terminate-Request must leave Opened. Restore() and Kill() are driven as extra ops R / K in every canonical state "
-        "and inside random walks. Non-trivial: the history produced at least one send or callback. "
+        "and inside random walks. Kind late (real time.AfterFunc timer, -race): the pending restart timer is re-armed with "
+        "a 40 ms period, event A is parked in its first callback until the timer has fired, so the timer callback waits "
+        "for the mutex while A stops/restarts the timer; a stopped/restarted timer's fire must be ignored, a pending one "
+        "must fire. The T event only exists while a timer is pending. Non-trivial: the history produced at least one send or callback. "
         "Distinct: by case text. The distribution records how many (state, RFC event class) cells of the 10x17 table "
         "were exercised and how many conc cases really overlapped.")
 TRUSTED = ["the option handler is abstracted to the class of its answer (good/nak/rej/both) for the automaton; "
            "option contents are property C06",
-           "timer expiry is the explicit event T (= consume pending timer, run Timeout()); real-time behaviour of "
-           "time.AfterFunc is not modelled"]
+           "timer expiry is the explicit event T (= consume the pending timer, run Timeout()); the real time.AfterFunc "
+           "path is exercised by the 'late' cases only"]
 ASSUMPTIONS = ["maxConf >= 0 and maxTerm >= 0 (NewFSM fixes them at 10 and 2)",
                "events are serialized by the FSM mutex: each event is one atomic [step] of the model; tied to the code by "
                "the forced-overlap cases (a second goroutine's event must wait while the first is inside a callback)",
@@ -86,7 +94,7 @@ def prefixes(mc, mt):
 # Configure-Request payloads by (kind, answer class); the mock handler reads the class off the first option type
 _MOCK_REQ = {"g": "010405d4050601020304", "n": "2102010405d4", "r": "2202010405d4", "b": "2302", "m": "0100"}
 RCR_DATA = {
-    "fsm": _MOCK_REQ, "ncp": _MOCK_REQ, "conc": _MOCK_REQ,
+    "fsm": _MOCK_REQ, "ncp": _MOCK_REQ, "conc": _MOCK_REQ, "late": _MOCK_REQ,
     "lcp": {"g": "010405d4050609090909", "n": "01040020", "r": "0702", "b": "010400200702", "m": "0100"},
     "ipcp": {"g": "03060a000002", "n": "03060a000009", "r": "0206002d0f01", "b": "03060a0000090206002d0f01", "m": "0100"},
     "ipv6cp": {"g": "010a0200000000000007", "n": "010a0000000000000000", "r": "0202",
@@ -96,7 +104,7 @@ RCR_DATA = {
 # the class field: g n r), b = empty, m = malformed
 _MOCK_ACK = {"g": "010405d4", "n": "0304c023", "r": "050601020304", "b": "", "m": "0101"}
 ACK_DATA = {
-    "fsm": _MOCK_ACK, "ncp": _MOCK_ACK, "conc": _MOCK_ACK,
+    "fsm": _MOCK_ACK, "ncp": _MOCK_ACK, "conc": _MOCK_ACK, "late": _MOCK_ACK,
     "lcp": {"g": "0305c22305", "n": "0304c023", "r": "010405780506aabbccdd", "b": "", "m": "0101"},
     "ipcp": {"g": "03060a000063", "n": "81060a0a0a0a83060b0b0b0b", "r": "03060a000001", "b": "", "m": "0101"},
     "ipv6cp": {"g": "010a02000000000000aa", "n": "010a0200000000000001", "r": "0202", "b": "", "m": "0101"},
@@ -214,6 +222,11 @@ def gen_cases(rng, tier, budget):
         for a in A_SET:
             for b in B_SET:
                 cases.append(mk("conc", ("2", "1"), p + ["/", "s", a, b]))
+    # 8. real restart timer firing while A is parked in a callback (late timer callback)
+    for p in ([["O", "U"], ["O", "U", "T"], ["O", "U", RCRP], ["O", "U", RCA], ["O", "U", "C"], ["O", "U", RXJ],
+               ["O", "U", RCRP, RCA, RXJ], ["O", "U", RCRP, RCA, RTR], ["O", "U", RCRP, RCA], ["U"]]):
+        for a in [RCRP, "I1.7.n.0", RCA, "I3.c.g.0", RTR, "I6.9.g.0", RXJ, "C", "D", "O", "I9.9.g.4", "I12.9.g.2"]:
+            cases.append(mk("late", ("2", "1"), p + ["/", "a", a]))
     cases.append(mk("fsm", ("d", "d"), ["O", "U"] + ["I12.9.g.2"] * 300 + [RCA, "I2.s.g.0", RCRP, RCA]))
     cases.append(mk("fsm", ("d", "d"), ["O", "U"] + ["I3.c.g.0"] * 260 + [RCRP, RCA]))
     return cases
@@ -252,6 +265,9 @@ def case_ops(case):
     if t[0] == "conc" and "/" in ops:
         k = ops.index("/")
         return ops[:k] + ["%s||%s@%s" % (ops[k + 2], ops[k + 3], ops[k + 1])]
+    if t[0] == "late" and "/" in ops:
+        k = ops.index("/")
+        return ops[:k] + ["%s||timer@%s" % (ops[k + 2], ops[k + 1])]
     return ops
 
 
@@ -326,6 +342,10 @@ def signature(case, impl, models):
         return None
     st, cl, op = cell_at(case, models["repaired"], i)
     kind = case.split()[0]
+    if v == "restore_unfixed":
+        return "restore-restart-counter"
+    if v == "late_unfixed":
+        return "late-timer-fire"
     if op[0] == "I" and "||" not in op and kind not in ("fsm", "lcp") and 8 <= int(op[1:].split(".")[0]) <= 11:
         return "ncp-code%s" % op[1:].split(".")[0]
     return "cell-%s-%s" % (st, cl)
@@ -348,6 +368,8 @@ def classify(case, impl, model):
            % (i, op, cl, st, a, b))
     if bad:
         txt += " [monitors: %s]" % " ".join(bad)
+    if "||timer" in op:
+        return "P", txt + " (real restart timer: a fire that came after the timer was stopped/restarted was not ignored, or a pending timer did not fire)"
     if "||" in op:
         return "P", txt + " (events are not atomic: the second goroutine's event ran inside the first one's callback)"
     if a is None or b is None or a[0] != b[0] or a[6] != b[6]:
@@ -369,7 +391,7 @@ def shrink(case):
     t = case.split()
     head, ops = t[:3], t[3:]
     tail = []
-    if head[0] == "conc" and "/" in ops:
+    if head[0] in ("conc", "late") and "/" in ops:
         k = ops.index("/")
         ops, tail = ops[:k], ops[k:]
     n = len(ops)
@@ -400,6 +422,9 @@ def distribution(cases, impl):
         if t[0] == "conc":
             d["conc_cases"] += 1
             d["conc_overlapped"] += "ov=1" in o
+        if t[0] == "late":
+            d["late_cases"] = d.get("late_cases", 0) + 1
+            d["late_parked"] = d.get("late_parked", 0) + ("ov=1" in o)
         for x in s:
             d["handler_calls"] += len(x[7])
             for a in x[6]:
